@@ -2,8 +2,10 @@
 //! Reads a JSON case on stdin, runs the REAL `Cucumber` with `init_tracing()` on scripted scenarios whose
 //! steps emit `tracing` events before and after await points, and prints the totally ordered history.
 //!
-//! Case: {"concurrency": null|k, "scenarios": [{"id": s, "retry": null|n, "fails": k,
-//!         "steps": [{"id": st, "pre": n, "yields": n, "post": n}]}]}
+//! Case: {"concurrency": null|k, "outer": bool (the whole run is polled inside an application span),
+//!        "scenarios": [{"id": s, "retry": null|n, "fails": k,
+//!         "steps": [{"id": st, "pre": n, "yields": n, "post": n, "inner": bool (messages are emitted inside a user
+//!                    span nested in the step's span)}]}]}
 //! History records: ["cb", scenario, step, attempt, span] ["emit", scenario, message id, span] ["close", span] ["sub", span] ["fwd"]
 //!                  ["ev", <event>] where a Log event is ["Scen", f, r, s, retries, ["LogMsg", message id | null]]
 
@@ -55,7 +57,7 @@ impl Future for YieldN {
 
 #[derive(Default)]
 struct St {
-    steps: BTreeMap<u64, (u64, u64, u64)>, // step id -> pre, yields, post
+    steps: BTreeMap<u64, (u64, u64, u64, bool)>, // step id -> pre, yields, post, inner
     nsteps: BTreeMap<u64, u64>,
     fails: BTreeMap<u64, u64>,
     visits: BTreeMap<u64, u64>,
@@ -67,8 +69,7 @@ thread_local! {
     static ST: RefCell<St> = RefCell::new(St::default());
 }
 
-fn emit(sid: u64) {
-    let span = tracing::Span::current().id().map_or(0, |i| i.into_u64());
+fn emit(sid: u64, span: u64) {
     let m = ST.with(|s| {
         let mut s = s.borrow_mut();
         s.next_msg += 1;
@@ -83,9 +84,9 @@ fn logging_step(_: &mut W, ctx: step::Context) -> LocalBoxFuture<'_, ()> {
         let mut it = ctx.step.value.split(' ');
         let sid: u64 = it.nth(1).and_then(|n| n.parse().ok()).unwrap_or(0);
         let stid = ctx.step.position.line as u64;
-        let (pre, yields, post, last, k, nfail) = ST.with(|s| {
+        let (pre, yields, post, inner, last, k, nfail) = ST.with(|s| {
             let mut s = s.borrow_mut();
-            let (pre, yields, post) = s.steps.get(&stid).copied().unwrap_or((0, 0, 0));
+            let (pre, yields, post, inner) = s.steps.get(&stid).copied().unwrap_or((0, 0, 0, false));
             let n = s.nsteps.get(&sid).copied().unwrap_or(1);
             let no = s.step_no.entry(sid).or_insert(0);
             if *no == 0 {
@@ -98,17 +99,25 @@ fn logging_step(_: &mut W, ctx: step::Context) -> LocalBoxFuture<'_, ()> {
                 *no = 0;
             }
             let k = s.visits.get(&sid).copied().unwrap_or(1) - 1;
-            (pre, yields, post, last, k, s.fails.get(&sid).copied().unwrap_or(0))
+            (pre, yields, post, inner, last, k, s.fails.get(&sid).copied().unwrap_or(0))
         });
         let span = tracing::Span::current().id().map_or(0, |i| i.into_u64());
         verif_trace::record("cbspan", sid * 1_000_000 + stid * 10 + k, span);
-        for _ in 0..pre {
-            emit(sid);
-        }
+        // `span` is the step's span; with `inner` the message is emitted inside a user span nested in it
+        let say = |n: u64| {
+            for _ in 0..n {
+                if inner {
+                    let user = tracing::info_span!("user_inner");
+                    let _g = user.enter();
+                    emit(sid, span);
+                } else {
+                    emit(sid, span);
+                }
+            }
+        };
+        say(pre);
         YieldN(yields).await;
-        for _ in 0..post {
-            emit(sid);
-        }
+        say(post);
         if last && k < nfail {
             std::panic::panic_any(format!("panic#{}", 1 + k));
         }
@@ -164,7 +173,12 @@ fn main() {
             ST.with(|x| {
                 x.borrow_mut().steps.insert(
                     stid,
-                    (st["pre"].as_u64().unwrap_or(0), st["yields"].as_u64().unwrap_or(0), st["post"].as_u64().unwrap_or(0)),
+                    (
+                        st["pre"].as_u64().unwrap_or(0),
+                        st["yields"].as_u64().unwrap_or(0),
+                        st["post"].as_u64().unwrap_or(0),
+                        st["inner"].as_bool().unwrap_or(false),
+                    ),
                 );
             });
         }
@@ -176,8 +190,10 @@ fn main() {
         f.scenarios.push(s);
     }
     let _ = verif_trace::take();
+    let outer = case["outer"].as_bool().unwrap_or(false);
     let res = std::panic::catch_unwind(move || {
-        futures::executor::block_on(
+        use tracing::Instrument as _;
+        let run = 
             cucumber::Cucumber::<W, _, _, _, _, cli::Empty>::custom(
                 VecParser(vec![f]),
                 cucumber::runner::Basic::default()
@@ -187,8 +203,15 @@ fn main() {
             )
             .init_tracing()
             .with_default_cli()
-            .run(()),
-        );
+            .run(());
+        if outer {
+            // the subscriber is installed by init_tracing() above, so the span is created lazily inside
+            futures::executor::block_on(async move {
+                run.instrument(tracing::info_span!("application")).await;
+            });
+        } else {
+            futures::executor::block_on(run);
+        }
     });
     let trace = verif_trace::take();
     let evs = ST.with(|s| std::mem::take(&mut s.borrow_mut().events));
